@@ -85,6 +85,7 @@ pub fn run_case(c: &Sexp) -> Sexp {
             });
             let enc_ok = matches!(enc.tagged(), Some(("ok", _)));
             let enc = if enc_ok { ok(vec![Sexp::hex(&bytes)]) } else { enc };
+            let mut decoded: Option<apache_avro::types::Value> = None;
             let dec = if enc_ok {
                 let mut input = bytes.clone();
                 input.extend_from_slice(&junk);
@@ -95,14 +96,56 @@ pub fn run_case(c: &Sexp) -> Sexp {
                     };
                     let mut slice = &input[..];
                     match r.read_value(&mut slice) {
-                        Ok(v) => ok(vec![value_to_sexp(&v), Sexp::hex(slice)]),
+                        Ok(v) => {
+                            let o = ok(vec![value_to_sexp(&v), Sexp::hex(slice)]);
+                            decoded = Some(v);
+                            o
+                        }
                         Err(_) => err(),
                     }
                 })
             } else {
                 Sexp::tag("skipped", vec![])
             };
-            Sexp::tag("obs", vec![schema_to_sexp(&schema), value_to_sexp(&value), enc, dec])
+            // the other public entry points of the same round trip: the deprecated free functions and the
+            // owned-value / to-vec methods must write the same bytes and read the same value
+            let alt = if validate {
+                guarded(|| {
+                    #[allow(deprecated)]
+                    let a1 = apache_avro::to_avro_datum(&schema, value.clone());
+                    let a2 = GenericDatumWriter::builder(&schema).build().and_then(|w| w.write_value_to_vec(value.clone()));
+                    let mut b3: Vec<u8> = Vec::new();
+                    let a3 = GenericDatumWriter::builder(&schema).build().and_then(|w| w.write_value(&mut b3, value.clone()));
+                    let same = |r: &Result<Vec<u8>, apache_avro::Error>| match r {
+                        Ok(b) => enc_ok && *b == bytes,
+                        Err(_) => !enc_ok,
+                    };
+                    #[allow(deprecated)]
+                    let a4 = apache_avro::to_avro_datum_schemata(&schema, vec![&schema], value.clone());
+                    let w_same = same(&a1) && same(&a2) && same(&a4) && (if enc_ok { a3.is_ok() && b3 == bytes } else { a3.is_err() });
+                    let r_same = if enc_ok {
+                        let mut input = bytes.clone();
+                        input.extend_from_slice(&junk);
+                        let mut slice = &input[..];
+                        #[allow(deprecated)]
+                        let d1 = apache_avro::from_avro_datum(&schema, &mut slice, None);
+                        let mut slice2 = &input[..];
+                        #[allow(deprecated)]
+                        let d2 = apache_avro::from_avro_datum_schemata(&schema, vec![&schema], &mut slice2, None);
+                        match (&decoded, d1, d2) {
+                            (Some(v), Ok(x), Ok(y)) => same_value(v, &x) && same_value(v, &y) && slice == &junk[..] && slice2 == &junk[..],
+                            (None, Err(_), Err(_)) => true,
+                            _ => false,
+                        }
+                    } else {
+                        true
+                    };
+                    ok(vec![Sexp::num(w_same as u64), Sexp::num(r_same as u64)])
+                })
+            } else {
+                Sexp::tag("skipped", vec![])
+            };
+            Sexp::tag("obs", vec![schema_to_sexp(&schema), value_to_sexp(&value), enc, dec, alt])
         }
         // (decode #schema-json #bytes) -> (obs SCHEMA DEC)
         "decode" => {
